@@ -14,6 +14,9 @@ fn values() -> Vec<String> {
     v.push("a/b/c".into());
     v.push("abab".into());
     v.push("abba".into());
+    for x in ["]", "a]", "]a", "\\", "a\\", "\\a", "-", "a-", "!", "[a]", "[]]"] {
+        v.push(x.into());
+    }
     v
 }
 
@@ -55,6 +58,13 @@ pub fn run(tier: Tier, _replay: Option<Value>) -> ! {
         }
     }
     rep.set("extglob_alternation_patterns", groups.len() as u64);
+    // bracket expressions with escaped members (`\]`, `\\`, `\-`, `\!`) in the pattern of every operator
+    for m in ["\\]", "a\\]", "\\]a", "!\\]", "\\\\", "a\\\\", "\\-a", "a\\-c", "\\!a"] {
+        patterns.push(format!("[{m}]"));
+        patterns.push(format!("[{m}]*"));
+        patterns.push(format!("*[{m}]"));
+        patterns.push(format!("[{m}][ab]"));
+    }
     let loop_body = format!("for p in \"${{P[@]}}\"; do for v in \"${{V[@]}}\"; do vargs {}; done; done\n", PAT_OPS.iter().map(|o| format!("\"{o}\"")).collect::<Vec<_>>().join(" "));
     let chunks: Vec<&[String]> = patterns.chunks(8).collect();
     for extglob in [false, true] {
@@ -109,6 +119,9 @@ pub fn run(tier: Tier, _replay: Option<Value>) -> ! {
                             if p.contains('(') {
                                 tags.push("pat:paren".into());
                             }
+                            if p.chars().rev().take_while(|c| *c == '\\').count() % 2 == 1 {
+                                tags.push("pat:trailing-backslash".into());
+                            }
                             if p.contains("!(") && p.contains('|') {
                                 tags.push("pat:negated-alternation".into());
                             }
@@ -138,7 +151,11 @@ pub fn run(tier: Tier, _replay: Option<Value>) -> ! {
                         // `/?(b)`, `/#?(b)`, `//?(b)`, and `/%!(a|b)` never takes the empty suffix although
                         // `/#!(a|b)` takes the empty prefix.
                         let has_group = ["@(", "?(", "*(", "+(", "!("].iter().any(|g| p.contains(g));
-                        let bash_quirk = oi >= 4 && (p.ends_with("\\*") || p.contains("()") || (extglob && has_group && v.is_empty()) || (extglob && oi == 7 && p.contains("!(")));
+                        // And with an unterminated `[` in the pattern and a `]` in the value (`p='[*'`, `v='[a]'`)
+                        // `##`/`%%`/`[[ ]]` take the whole value while `/` replaces only `[a`.
+                        let open_bracket = p.rfind('[').map(|i| !p[i..].contains(']')).unwrap_or(false);
+                        let bash_quirk = oi >= 4
+                            && (p.ends_with("\\*") || p.contains("()") || (extglob && has_group && v.is_empty()) || (extglob && oi == 7 && p.contains("!(")) || (open_bracket && v.contains(']')));
                         if bash_quirk {
                             rep.add("substitution_rows_skipped_bash_inconsistent_with_itself", 1);
                         } else if g != want[oi] {
